@@ -131,12 +131,12 @@ func VerifC01RollbackMinedTx() {
 // coin, the balance restored, no debit, no record of the block - and both transactions are pending again, T1's
 // output a pending credit marked spent by T2, C marked spent by T1.
 func VerifC01RollbackSpendChain() {
-	vFixedIDs = true
-	defer func() { vFixedIDs = false }()
+	vFixedIDs, vPinned, vPinCtr = true, true, 0
+	defer func() { vFixedIDs, vPinned = false, false }()
 	a := vApplySetupID(true)
 	s := a.s
 	rt.Assume(a.coin.amount.UintValue()+a.outValue <= massutil.MaxAmount().UintValue())
-	sh2 := rt.NondetBytes(32)
+	sh2 := vScriptHash()
 	for _, sh := range [][]byte{a.coin.scriptHash, a.shOut, sh2} {
 		keystore.VerifAddAddressWithHash(s.utxo.ksmgr, verifWID, vPk(vP2WSH(sh)).StdEncodeAddress(), sh)
 	}
